@@ -408,6 +408,29 @@ func errnos() {
 		}
 		nontriv++
 	}
+	// the same for a rule that names an architecture first: EVERY arch name x EVERY errno name - the number an errno name
+	// stands for is the table's whatever ABI the rule is for, and the printed rule names it again
+	for _, aname := range auparse.AuditArchNames {
+		for name, num := range auparse.AuditErrnoToNum {
+			evals++
+			line := "-a always,exit -F arch=" + aname + " -S all -F exit=-" + name
+			w, err := buildLine(line)
+			if err != nil {
+				continue // architectures the builder does not take are reported by arches()
+			}
+			if got := int32(u32(w, offValues+4)); got != int32(-num) {
+				rep("errno-name-builds-other-number", "%s encodes exit=%d, the name stands for errno %d", line, got, num)
+				continue
+			}
+			txt, err := rule.ToCommandLine(rule.WireFormat(w), true)
+			want := auparse.AuditErrnoToName[num]
+			if err != nil || !strings.Contains(txt, "exit=-"+want) {
+				rep("errno-name-not-printed-back", "%s is printed as (%q, %v), want exit=-%s", line, txt, err, want)
+				continue
+			}
+			nontriv++
+		}
+	}
 	for num, name := range auparse.AuditErrnoToName {
 		evals++
 		if n2, ok := auparse.AuditErrnoToNum[name]; !ok || n2 != num {
